@@ -181,6 +181,38 @@ void ClockDevice::doLoop(int opIndex, Verdict& v, Coverage& cov) {
     // rule 6 cannot be violated through SimRefClock (it is not wired); rule 2 below
   }
 
+  // The model consumes what the call did in the order in which it did it. The shipped code never sends and
+  // reads in one call, but a refactoring that does (e.g. reading an instantly ready answer right after sending)
+  // keeps the property, so it must not be mistaken for "a late answer of the request given up before".
+  auto onSend = [&]() {
+    if (sync.phase == SyncModel::IDLE) {
+      if (now < sync.dueMin) {
+        v.fail("c14-spacing", fmt("request sent at t=%lld ms, only %lld ms after the previous one "
+            "(sent at %lld, %s); the smallest admissible period is %u s",
+            (long long)now, (long long)(now - sync.start), (long long)sync.start,
+            sync.after == SyncModel::SUCCESS ? "which succeeded" : "which failed",
+            (unsigned)((sync.dueMin - sync.start) / 1000)), opIndex);
+      }
+    } else {
+      int64_t minNext = sync.start + (int64_t)sync.minC() * 1000;
+      if (now < minNext) {
+        v.fail("c14-spacing", fmt("a new request was sent at t=%lld ms while the one sent at %lld ms "
+            "was still outstanding, %lld ms apart; smallest admissible period %u s",
+            (long long)now, (long long)sync.start, (long long)(now - sync.start),
+            (unsigned)sync.minC()), opIndex);
+      }
+      sync.fail(now);
+    }
+    sync.phase = SyncModel::WAITING; sync.start = now; sync.overdue = sync.unread = 0;
+    sync.requests++;
+    cov.count("c14.requests");
+  };
+  const bool both = sent && readHas;
+  const bool sentFirst = both && ref.sendSeq < ref.readSeq;
+  if (both) cov.count("probe.send_and_read_in_one_call");
+  if (sentFirst && cfg.ref != 0) onSend();
+  const bool sentNow = sent && !both;
+
   const bool lateAnswer = sync.phase == SyncModel::IDLE && sync.after == SyncModel::FAILURE && readValid;
   if (lateAnswer) {
     cov.count("probe.late_answer_read_after_giveup");
@@ -243,17 +275,8 @@ void ClockDevice::doLoop(int opIndex, Verdict& v, Coverage& cov) {
   }
 
   if (sync.phase == SyncModel::IDLE) {
-    if (sent) {
-      if (now < sync.dueMin) {
-        v.fail("c14-spacing", fmt("request sent at t=%lld ms, only %lld ms after the previous one "
-            "(sent at %lld, %s); the smallest admissible period is %u s",
-            (long long)now, (long long)(now - sync.start), (long long)sync.start,
-            sync.after == SyncModel::SUCCESS ? "which succeeded" : "which failed",
-            (unsigned)((sync.dueMin - sync.start) / 1000)), opIndex);
-      }
-      sync.phase = SyncModel::WAITING; sync.start = now; sync.overdue = sync.unread = 0;
-      sync.requests++;
-      cov.count("c14.requests");
+    if (sentNow) {
+      onSend();
     } else if (now >= sync.dueMax) {
       sync.overdue++;
       if (sync.overdue > 2) {
@@ -263,18 +286,8 @@ void ClockDevice::doLoop(int opIndex, Verdict& v, Coverage& cov) {
       }
     }
   } else {  // WAITING
-    if (sent) {
-      int64_t minNext = sync.start + (int64_t)sync.minC() * 1000;
-      if (now < minNext) {
-        v.fail("c14-spacing", fmt("a new request was sent at t=%lld ms while the one sent at %lld ms "
-            "was still outstanding, %lld ms apart; smallest admissible period %u s",
-            (long long)now, (long long)sync.start, (long long)(now - sync.start),
-            (unsigned)sync.minC()), opIndex);
-      }
-      sync.fail(now);
-      sync.phase = SyncModel::WAITING; sync.start = now; sync.overdue = sync.unread = 0;
-      sync.requests++;
-      cov.count("c14.requests");
+    if (sentNow) {
+      onSend();
     } else if (readValid) {
       if (late) cov.count("fault.ref_race_read");
       if (kindBefore == RefPlan::STALE) cov.count("fault.ref_stale");
@@ -311,6 +324,7 @@ void ClockDevice::doLoop(int opIndex, Verdict& v, Coverage& cov) {
       }
     }
   }
+  if (both && !sentFirst) onSend();   // the old answer was read first, then a new request went out
 }
 
 bool ClockDevice::exec(const std::vector<std::string>& toks, int opIndex, Verdict& v, Coverage& cov) {
